@@ -230,3 +230,10 @@ func (l *verifLoopback) RemoteSpawn(ctx context.Context, host string, port int, 
 	}
 	return nil, gerrors.ErrInvalidResponse
 }
+
+// VerifRecreateSingleton runs the relocation worker's recreateSingletonFromWire
+// (the relocation of one singleton record left by departedNode) on sys, on the
+// calling goroutine. Verification harness only.
+func VerifRecreateSingleton(ctx context.Context, sys ActorSystem, props *internalpb.Actor, departedNode string) error {
+	return recreateSingletonFromWire(ctx, sys, props, departedNode)
+}
